@@ -150,15 +150,22 @@ def check_set(models, rng, viols, info, n_cand=3, crosscheck=True):
     d0 = exact.det(W) if crosscheck else None
     for c in range(n_cand):
         kind = str(rng.choice(["near", "axis", "far", "at_point"],
-                              p=[0.6, 0.1, 0.2, 0.1]))
+                              p=[0.5, 0.1, 0.2, 0.2]))
         if kind == "axis":
             s = np.zeros(itp.n)
             s[int(rng.integers(itp.n))] = scale * rng.uniform(-2, 2)
         elif kind == "far":
             s = rng.standard_normal(itp.n) * scale * 4
         elif kind == "at_point":
-            s = itp.xpt[:, int(rng.integers(itp.npt))] * (
-                1 + 1e-3 * rng.standard_normal())
+            xj = itp.xpt[:, int(rng.integers(itp.npt))]
+            if rng.random() < 0.5:
+                s = xj * (1 + 1e-3 * rng.standard_normal())
+            else:
+                # next to an interpolation point (100..1e5 times closer to
+                # it than to the base point), in any direction
+                s = xj + rng.standard_normal(itp.n) * float(
+                    np.linalg.norm(xj) + 1e-3 * scale) * 10.0 ** rng.uniform(
+                        -5, -2)
         else:
             s = rng.standard_normal(itp.n) * scale
         x_new = itp.x_base + s
